@@ -69,6 +69,12 @@ pub fn sched_alphabet() -> Vec<(String, Sett)> {
     let mut v = alphabet();
     v.push((heavy_page(0), Sett::default_()));
     v.push((heavy_page(1), Sett::default_()));
+    // the same tagged, labelled and nested drawing at three scales (anything process-wide that depends on the settings
+    // of the conversion in progress shows when threads at different scales interleave inside the node-building stage)
+    let scaled = "+------------+  .-------.\n|{a} label x |  | (inner) |\n+------------+  '-------'\n  \"quoted\" plain";
+    for sc in [2.0f32, 30.0, 0.5] {
+        v.push((scaled.to_string(), Sett::bare_scale(sc)));
+    }
     v
 }
 
@@ -216,6 +222,9 @@ fn harness(id: i64) -> Vec<Vec<usize>> {
         6 => vec![vec![6], vec![8], vec![9]],
         // two page-sized drawings at once (work that is bounded or shared per process shows here)
         8 => vec![vec![alphabet().len()], vec![alphabet().len() + 1]],
+        // two threads convert the same drawing at different scales
+        9 => vec![vec![alphabet().len() + 2], vec![alphabet().len() + 3]],
+        10 => vec![vec![alphabet().len() + 4, alphabet().len() + 2], vec![alphabet().len() + 3]],
         _ => vec![vec![2], vec![3]],
     }
 }
@@ -293,9 +302,9 @@ impl Prop for C07 {
             }),
         ];
         let hs: Vec<(i64, i64)> = if quick {
-            vec![(0, 2), (1, 2), (2, 1), (3, 2), (4, 2), (5, 1), (8, 1)]
+            vec![(0, 2), (1, 2), (2, 1), (3, 2), (4, 2), (5, 1), (8, 1), (9, 2), (10, 1)]
         } else {
-            vec![(0, 3), (1, 3), (2, 2), (3, 3), (4, 3), (5, 2), (6, 2), (7, 3), (8, 1)]
+            vec![(0, 3), (1, 3), (2, 2), (3, 3), (4, 3), (5, 2), (6, 2), (7, 3), (8, 1), (9, 3), (10, 2)]
         };
         v.push(Scope::new("pair-histories", "every ordered pair (X, Y) of a 100-drawing alphabet (the quadrants of every catalogue circle, rounded tabs, the history alphabet): Y converted immediately after X in one process, compared with Y alone in a fresh process", |f| {
             for x in 0..pair_alphabet().len() {
@@ -312,7 +321,7 @@ impl Prop for C07 {
                 // the default execution plus up to `slots` subtrees below it; the page-sized harness has about
                 // ten thousand points: the thorough tier explores a preemption at every one of them, the quick
                 // tier at the first, the middle and the last dynamic occurrence of every (thread, program point)
-                let (slots, mode) = if h == 8 { if quick { (256, 1) } else { (12288, 0) } } else { (256, 0) };
+                let (slots, mode) = if h == 8 { if quick { (256, 1) } else { (16384, 0) } } else { (256, 0) };
                 for child in -1..slots {
                     f(Case::sn("schedule", vec![h, b, child, mode, slots]));
                 }
